@@ -182,7 +182,15 @@ pub fn execute(sc: &Scenario, env: &Env) -> (Outcome, RunStats) {
                     });
                     (None, Some(id))
                 }
-                Summary::UnreadableArtifact => (None, Some("e".repeat(64))),
+                // ids that do not resolve to a readable blob: never written, empty, and ids that
+                // resolve to a directory once the blob store exists
+                Summary::UnreadableArtifact => (None, Some(match k % 5 {
+                    0 => "e".repeat(64),
+                    1 => String::new(),
+                    2 => ".".to_string(),
+                    3 => "../blobs".to_string(),
+                    _ => "..".to_string(),
+                })),
                 Summary::TextAndUnreadableArtifact => (Some(format!("summary {k}")), Some("d".repeat(64))),
             };
             FAIL_ARTIFACT_WRITE.store(l.fail_artifact_write, std::sync::atomic::Ordering::SeqCst);
